@@ -108,18 +108,37 @@ Section Dec.
     - intros [|?]; [apply tame_raise|apply tame_ret].
   Qed.
 
+  Lemma tame_dec_option lo otype : 0 <= lo -> tame lo (dec_option wire otype).
+  Proof.
+    intros Hlo. unfold dec_option.
+    repeat match goal with |- tame lo (if ?b then _ else _) => destruct b end.
+    - unfold dec_ecs. apply tame_bind; [apply tame_get_struct; auto|].
+      intros [|family [|src [|scope [|? ?]]]]; try apply tame_raise.
+      apply tame_bind; [apply tame_get_bytes; auto|]. intros _.
+      repeat match goal with |- tame lo (if ?b then _ else _) => destruct b end;
+        first [apply tame_ret | apply tame_raise].
+    - unfold dec_cookie. apply tame_bind; [apply tame_get_bytes; auto|]. intros _.
+      apply tame_bind; [apply tame_get_remaining; auto|]. intros server.
+      match goal with |- tame lo (if ?b then _ else _) => destruct b end; [apply tame_ret|apply tame_raise].
+    - unfold dec_ede. apply tame_bind; [apply tame_get_uint; auto|]. intros _.
+      apply tame_bind; [apply tame_get_remaining; auto|]. intros [|? ?]; [apply tame_ret|].
+      match goal with |- tame lo (if ?b then _ else _) => destruct b end; [apply tame_ret|apply tame_raise].
+    - apply tame_bind; [apply tame_get_name; auto|]. intros; apply tame_ret.
+    - apply tame_bind; [apply tame_get_remaining; auto|]. intros; apply tame_ret.
+  Qed.
+
   Lemma tame_opt_loop lo : 0 <= lo -> forall fuel, tame lo (opt_loop wire fuel).
   Proof.
     intros Hlo. induction fuel as [|f IH]; cbn [opt_loop]; [apply tame_raise|].
     intros s W. destruct (remaining s >? 0).
     - apply (tame_bind lo (get_struct wire [2; 2])
                (fun h => match h with
-                         | [_; olen] => dom _ <- restrict_to olen (get_remaining wire); opt_loop wire f
+                         | [otype; olen] => dom _ <- restrict_to olen (dec_option wire otype); opt_loop wire f
                          | _ => raise (XInt iIndexError)
                          end)); auto.
       + apply tame_get_struct; auto.
-      + intros [|? [|olen [|? ?]]]; try apply tame_raise.
-        apply tame_bind; [apply tame_restrict_to; auto; apply tame_get_remaining; auto|]. intros; apply IH.
+      + intros [|otype [|olen [|? ?]]]; try apply tame_raise.
+        apply tame_bind; [apply tame_restrict_to; auto; apply tame_dec_option; auto|]. intros; apply IH.
     - cbn. split; [exact W|split; [reflexivity|lia]].
   Qed.
 
